@@ -10,6 +10,7 @@ import FendModel.Model.Date
 import FendModel.Model.IntFns
 import FendModel.Model.SerializeCanon
 import FendModel.Model.Preview
+import FendModel.Model.XRates
 
 open Fend Fend.Proto
 
@@ -244,6 +245,53 @@ def previewLine (line : String) : String :=
       | some r => showCps (r.1.toList.map Char.toNat)
   | _ => "bad-op"
 
+/-- `f64::from_str` succeeds with a NORMAL number (not 0, subnormal, inf, nan) — decimal syntax only -/
+def okRate (t : List Nat) : Bool :=
+  let cs := t.map Char.ofNat
+  let cs := match cs with | '+' :: r => r | '-' :: r => r | r => r
+  let isD (c : Char) : Bool := c.isDigit
+  let intPart := cs.takeWhile isD
+  let r1 := cs.dropWhile isD
+  let (frac, r2) := match r1 with
+    | '.' :: r => (r.takeWhile isD, r.dropWhile isD)
+    | r => ([], r)
+  if intPart.isEmpty && frac.isEmpty then false else
+  let expOk : Option Int := match r2 with
+    | [] => some 0
+    | e :: r =>
+      if e = 'e' ∨ e = 'E' then
+        let (neg, r) := match r with | '+' :: r => (false, r) | '-' :: r => (true, r) | r => (false, r)
+        if r.isEmpty || !r.all isD then none
+        else some ((if neg then -1 else 1) * ((String.ofList r).toNat?.getD 0 : Int))
+      else none
+  match expOk with
+  | none => false
+  | some ex =>
+    let digits := intPart ++ frac
+    let m := (String.ofList digits).toNat?.getD 0
+    if m = 0 then false else
+    -- value = m * 10^(ex - frac.length); normal iff 2^-1022 ≤ value < 2^1024 (rounding at the edges ignored)
+    let e10 : Int := ex - frac.length
+    if e10 > 400 ∨ e10 < -400 - (digits.length : Int) then false else
+    let num := if e10 ≥ 0 then m * 10 ^ e10.toNat else m
+    let den := if e10 ≥ 0 then 1 else 10 ^ (-e10).toNat
+    decide (num * 2 ^ 1022 ≥ den) && decide (num < den * 2 ^ 1024)
+
+/-- `<eu|un> <now> <maxAge> <currency hex (no spaces: packed)> <cache contents packed hex>` -/
+def xratesLine (line : String) : String :=
+  match line.trimAscii.toString.splitOn " " with
+  | [src, now, maxAge, cur, contents] =>
+    match now.toNat?, maxAge.toNat?, parsePackedHex cur, parsePackedHex contents with
+    | some now, some maxAge, some cur, some contents =>
+      let s := if src = "eu" then Fend.XRates.Source.eu else .un
+      match Fend.XRates.lookup s okRate contents now maxAge cur with
+      | .ok none => "ok base"
+      | .ok (some t) => "ok " ++ packedHex t
+      | .error .invalid => "err"
+      | .error .panic => "panic"
+    | _, _, _, _ => "bad-op"
+  | _ => "bad-op"
+
 partial def loop (h : IO.FS.Stream) (out : IO.FS.Stream) (f : String → String) : IO Unit := do
   let line ← h.getLine
   if line.isEmpty then return ()
@@ -264,4 +312,5 @@ def main (args : List String) : IO UInt32 := do
   | ["intfn"] => loop stdin stdout intfnLine; return 0
   | ["serde"] => loop stdin stdout serdeLine; return 0
   | ["preview"] => loop stdin stdout previewLine; return 0
+  | ["xrates"] => loop stdin stdout xratesLine; return 0
   | _ => IO.eprintln "usage: fend_model_driver <stream>"; return 2
